@@ -303,7 +303,11 @@ class Impl:
             # a file somebody else wrote (igraph itself, edges in the object's order)
             fmt = c.form.split(":")[1]
             p = self.path(fmt)
-            g.write(p, format=fmt)
+            if fmt == "edgelist":     # written by hand: lines in the caller's order AND orientation
+                with open(p, "w", encoding="utf-8") as f:
+                    f.write("".join(f"{i} {j}\n" for i, j in c.edges))
+            else:
+                g.write(p, format=fmt)
             kw = {"directed": c.directed} if fmt == "edgelist" else {}
             if c.cls == "net":
                 return self.Network.Load(p, fmt, silence_level=3, **kw)
@@ -544,6 +548,15 @@ def observe(net):
         o["link_attribute3"] = [[exact(x) for x in row] for row in net.link_attribute(ATTR3)]
     except KeyError:
         o["link_attribute3"] = None
+    # average_link_attribute(name) = link_attribute(name).mean(axis=1): reported as the exact
+    # quotient (row sum of the reported matrix) / N when the float agrees with it
+    for key, mk, name in (("avg", "link_attribute", ATTR), ("avg2", "link_attribute2", ATTR2)):
+        try:
+            av = net.average_link_attribute(name)
+            o[key] = [canon_quotient(x, sum(row, Fraction(0)), N) for x, row in zip(av, o[mk])] \
+                if o[mk] is not None and len(av) == N else [Fraction(float(x)) for x in av]
+        except KeyError:
+            o[key] = None
     g = getattr(net, "grid", None)
     o["grid"] = None if g is None or not hasattr(g, "grid") else \
         {k: [exact(x) for x in np.asarray(v, dtype=float).ravel()] for k, v in sorted(g.grid().items())}
@@ -589,7 +602,9 @@ def show_obs(o):
         "none" if o["link_attribute2"] is None else show_mat(o["link_attribute2"], show_rat),
         "none" if o["link_attribute3"] is None else show_mat(o["link_attribute3"], show_rat),
         ",".join(o["link_attribute_names"]) or "-",
-        show_es(o["es"]), show_es(o["es2"]), show_es(o["es3"])])
+        show_es(o["es"]), show_es(o["es2"]), show_es(o["es3"]),
+        "none" if o["avg"] is None else show_rats(o["avg"]),
+        "none" if o["avg2"] is None else show_rats(o["avg2"])])
 
 
 MODEL_OPS = {"saveload:gml": "saveload_gml", "loadspatial:gml": "loadspatial_gml",
@@ -711,6 +726,9 @@ def expected(c):
             e[key] = None
         else:
             e[key] = [[Fraction(0)] * N for _ in range(N)]
+    if N >= 1:      # average_link_attribute: row means of the specified (masked) matrix
+        for key, mk in (("avg", "link_attribute"), ("avg2", "link_attribute2")):
+            e[key] = None if e[mk] is None else [sum(row, Fraction(0)) / N for row in e[mk]]
     if pairs:       # the embedded graph object holds the specified value on every edge
         for key, W in (("es", V), ("es2", V2), ("es3", V3)):
             e[key] = None if W is None else \
@@ -741,7 +759,7 @@ def close(a, b):
 def first_difference(o, e):
     for k in ["N", "directed", "n_links", "link_density", "adjacency", "sp_A", "graph",
               "node_weights", "total_node_weight", "mean_node_weight", "link_attribute",
-              "link_attribute2", "link_attribute3", "gvw", "es", "es2", "es3"]:
+              "link_attribute2", "link_attribute3", "gvw", "es", "es2", "es3", "avg", "avg2"]:
         if k in e and not close(o[k], e[k]):
             return k
     if "grid" in e:
